@@ -162,6 +162,8 @@ func failCode(text string) int {
 		return 7
 	case strings.HasPrefix(text, "can't resume run as node no longer exists"):
 		return 8
+	case strings.HasPrefix(text, "can't resume run in voice flow without call"):
+		return 12
 	case strings.HasPrefix(text, "no such flow"):
 		return 10
 	case strings.HasPrefix(text, "can't enter flow"):
@@ -510,7 +512,8 @@ func caseCoq(h *History, execs []*Exec) string {
 		}
 		pat := make([]bool, len(h.Ops))
 		copy(pat, ex.Pattern)
-		runs = append(runs, fmt.Sprintf("(%s, %d%%nat)", hx.List(pat, hx.Bool), k))
+		reads := hx.List(ex.AfterRead, func(r []int) string { return hx.List(r, func(i int) string { return fmt.Sprint(i) }) })
+		runs = append(runs, fmt.Sprintf("(%s, %d%%nat, %s%%N)", hx.List(pat, hx.Bool), k, reads))
 	}
 	return fmt.Sprintf("{| pc_assets := %s;\n  pc_trigger := %s; pc_flow := %s; pc_batch := %s;\n  pc_resumes := [%s];\n  pc_streams := [%s]%%N;\n  pc_runs := [%s] |}",
 		h.Assets.Coq(), trig, hx.N(h.Trigger.Flow), hx.Bool(h.Trigger.Batch), strings.Join(rs, "; "), strings.Join(streams, ";\n   "), strings.Join(runs, "; "))
